@@ -109,9 +109,17 @@ def apply_ref(d, op):
     raise KeyError(o)
 
 
-def fresh(iface, init):
+SHAPE = ["dict"]  # how the response's constructor is handed its (clean) initial headers; set per shard / per call site
+
+
+def fresh(iface, init, shape=None):
+    """shape: a dict, a list of pairs, a read-only Headers object (what the middleware builds its response from), a
+    MutableHeaders object (another response's header mapping)."""
+    from baize.datastructures import Headers, MutableHeaders
     mod = __import__("baize.wsgi" if iface == "wsgi" else "baize.asgi", fromlist=["PlainTextResponse"])
-    return mod.PlainTextResponse("body", headers=dict(init))
+    shape = shape or SHAPE[0]
+    h = {"dict": lambda: dict(init), "pairs": lambda: list(init) or None, "Headers": lambda: Headers(list(init)), "MutableHeaders": lambda: MutableHeaders(list(init))}[shape]()
+    return mod.PlainTextResponse("body", headers=h)
 
 
 def emit(iface, resp):
@@ -150,6 +158,7 @@ INITS = [(), (("x", "ok"),)]
 
 def shards(tier, seed):
     out = [("headers", iface, i) for iface in ("wsgi", "asgi") for i in range(len(INITS))]
+    out += [("headers", iface, i, shape) for iface in ("wsgi", "asgi") for i in range(len(INITS)) for shape in ("Headers", "MutableHeaders")]
     out += [("cookie", i) for i in range(len(COOKIE_ALPHA) + 1)]
     out += [("hdrstrings", iface) for iface in ("wsgi", "asgi")]
     out += [("redirect", i) for i in range(len(URL_ALPHA))]
@@ -213,7 +222,8 @@ def run_shard(desc, tier):
         from ..core import fresh
         return fresh.call(__name__, ("coldstart-run",), tier)
     if desc[0] == "headers":
-        _, iface, ii = desc
+        iface, ii = desc[1], desc[2]
+        SHAPE[0] = desc[3] if len(desc) > 3 else "dict"
         init = INITS[ii]
         nontrivial = set()
 
@@ -224,7 +234,7 @@ def run_shard(desc, tier):
                 r.count("evaluations")
                 if prob:
                     i, kind, a, b = prob
-                    r.violation(f"headers:{op[0]}:{kind}", {"kind": "headers", "iface": iface, "init": list(init), "history": [list(o) for o in h2]},
+                    r.violation(f"headers:{op[0]}:{kind}", {"kind": "headers", "iface": iface, "init": list(init), "history": [list(o) for o in h2], "shape": SHAPE[0]},
                                 f"{iface} headers init {dict(init)} history {h2}: step {i} {kind}: implementation {a!r:.200} vs reference {b!r:.200}")
                     yield op, None
                 else:
@@ -234,7 +244,7 @@ def run_shard(desc, tier):
                     r.count("emissions")
                     if not (any(ord(c) > 0xFF for v in d.values() for c in v) and (isinstance(res.exc, UnicodeEncodeError) or any("Latin-1" in x for x in res.problems))):
                         for p in line_problems(res):
-                            r.violation("headers:emitted-line", {"kind": "headers", "iface": iface, "init": list(init), "history": [list(o) for o in h2]}, f"{iface} after {h2}: {p}")
+                            r.violation("headers:emitted-line", {"kind": "headers", "iface": iface, "init": list(init), "history": [list(o) for o in h2], "shape": SHAPE[0]}, f"{iface} after {h2}: {p}")
                     yield op, h2
 
         def canon(hist):
@@ -248,7 +258,7 @@ def run_shard(desc, tier):
                 nontrivial.add(tuple(sorted(d.items())))
             res = emit(iface, resp)
             r.count("emissions")
-            w = {"kind": "headers", "iface": iface, "init": list(init), "history": [list(o) for o in hist]}
+            w = {"kind": "headers", "iface": iface, "init": list(init), "history": [list(o) for o in hist], "shape": SHAPE[0]}
             wide = any(ord(c) > 0xFF for v in d.values() for c in v)
             if wide and (isinstance(res.exc, UnicodeEncodeError) or any("Latin-1" in x for x in res.problems)):
                 return  # text outside Latin-1 cannot be sent as a header value: refusing it is no injection
@@ -344,7 +354,7 @@ def header_strings(r, iface, tier):
             for as_name in (False, True):
                 if as_name and (pname == "append-existing" or not hostile):
                     continue
-                resp = fresh(iface, (("x-old", "1"),))
+                resp = fresh(iface, (("x-old", "1"),), shape=("dict", "Headers", "MutableHeaders", "pairs")[len(s_) % 4 if not as_name else 1])
                 r.count("evaluations")
                 if hostile:
                     r.count("distinct_nontrivial")
@@ -529,6 +539,9 @@ def check_redirect(r, url):
                 r.violation("redirect:control-char-in-line", w, f"{iface} RedirectResponse({url!r}, as_url={as_url}): {probs[0]}")
             elif len(loc) != 1 or not loc[0].isascii() or any(ord(c) <= 0x20 or ord(c) == 0x7F for c in loc[0]):
                 r.violation("redirect:location-not-clean-ascii", w, f"{iface} RedirectResponse({url!r}) -> Location {loc!r}")
+            elif not as_url and any(loc[0].upper().count(esc) != url.count(ch) for ch, esc in (("\r", "%0D"), ("\n", "%0A"), ("\0", "%00"))):
+                # escaped, not dropped: every CR, LF and NUL of the target is there as its percent escape
+                r.violation("redirect:control-character-dropped", w, f"{iface} RedirectResponse({url!r}) -> Location {loc[0]!r}: the control characters of the target are not all present as %0D / %0A / %00")
             else:
                 r.add("outcomes", ("redirect", res.status))
 
@@ -546,6 +559,7 @@ def replay(w):
         hits = {k: v for k, v in rr.viol.items() if v[1].get("specs") == w["specs"]} or rr.viol
         return bool(hits), {"violations": sorted(hits), "texts": [v[2][:300] for v in hits.values()]}
     if w["kind"] == "headers":
+        SHAPE[0] = w.get("shape", "dict")
         init = tuple(tuple(p) for p in w["init"])
         hist = tuple(tuple(o) for o in w["history"])
         resp, d, prob = replay_history(w["iface"], init, hist)
